@@ -422,6 +422,10 @@ pub struct Mdl {
     /// incomplete outbound QoS>0 exchanges transmitted on this connection
     pub out_n: u32,
     pub q2_notified: BTreeSet<u32>,
+    /// identifiers (any owner) and notified QoS 2 identifiers that existed when the CONNECT of the current attempt was
+    /// processed and have not been re-used since: the part of the state a 'session not present' answer discards
+    pub old_ids: BTreeSet<u32>,
+    pub old_q2: BTreeSet<u32>,
     pub in_unacked: BTreeSet<u32>,
     /// receiver's (peer's) alias table for what we sent on this connection
     pub peer_alias: BTreeMap<u16, Vec<u8>>,
@@ -468,6 +472,8 @@ impl Mdl {
             store: vec![],
             out_n: 0,
             q2_notified: BTreeSet::new(),
+            old_ids: BTreeSet::new(),
+            old_q2: BTreeSet::new(),
             in_unacked: BTreeSet::new(),
             peer_alias: BTreeMap::new(),
             app_alias: BTreeMap::new(),
@@ -492,6 +498,26 @@ impl Mdl {
         self.ids.clear();
         self.store.clear();
         self.q2_notified.clear();
+        self.old_ids.clear();
+        self.old_q2.clear();
+    }
+    /// remember what belongs to the session as it was before this CONNECT
+    pub fn mark_old_session(&mut self) {
+        // (identifiers the application merely holds are not part of the session: they stay its own)
+        self.old_ids = self.ids.iter().filter(|(_, o)| **o != Owner::App).map(|(i, _)| *i).collect();
+        self.old_q2 = self.q2_notified.clone();
+    }
+    /// 'session not present' after a CONNECT without clean start: the earlier session is discarded; what has been
+    /// accepted / notified since the CONNECT belongs to the new one
+    pub fn drop_old_session(&mut self) {
+        let old = std::mem::take(&mut self.old_ids);
+        for id in &old {
+            self.ids.remove(id);
+            self.owed_rel.remove(id);
+        }
+        self.store.retain(|e| !old.contains(&e.id));
+        let oq = std::mem::take(&mut self.old_q2);
+        self.q2_notified.retain(|i| !oq.contains(i));
     }
     /// a CONNECT was sent or received since the last close
     pub fn link_up_or_attempted(&self) -> bool {
